@@ -77,6 +77,28 @@ def r1_flush_atomicity(ctx):
                    "a second task on the same session (second open on the new session, or the heartbeat) finds the buffer empty and reaches the transport first, so its frame precedes "
                    "Settings, or its PSH overtakes its own buffered SYN and is dropped by the server as unknown stream" % (tk.site, bad[0], "line %s" % body.blocks[bad[0]]["tspan"]["line"]),
                    path=None if ok else render_path(body, sorted(mid))[:12])
+    # once buffering is off, *every* frame takes the pending bytes with it: whether to flush depends on nothing but the
+    # buffer being non-empty (a frame that skips the flush reaches the transport ahead of the buffered Settings / SYN)
+    conds = ctx.conds(body)
+    off = []
+    empty_t = []
+    for c in conds.all():
+        if c.kind == "bool" and is_call_term(c.term, ">::load") and "buffering" in fmt(c.term):
+            off += c.edges_for(False)
+        if c.kind == "bool" and is_call_term(c.term, "::is_empty"):
+            t0 = c.term[3][0] if c.term[3] else None
+            if isinstance(t0, tuple) and t0[0] == "var" and len(t0) > 2:
+                gi = guard_info(body.lty(t0[2]))
+                if gi and names.get(gi[1]) == BUFFER_CLS_FIELD:
+                    empty_t += c.succs_for(True)
+    if off:
+        okf, pf = cfg.must_pass([e[1] for e in off], [w.bb for w in wwp], via_blocks=[t.bb for t in takes] + empty_t)
+        ctx.ob("R11.1", "write_frame:every-unbuffered-write-flushes-what-is-pending", okf, takes[0].site,
+               "with buffering off, a frame reaches write_with_padding only after taking the pending bytes or finding the buffer empty" if okf else
+               "with buffering off a frame can reach the transport while older frames are still sitting in Session.buffer (the flush is skipped under a condition other than 'buffer empty'): a second opener's SYN "
+               "then precedes the buffered Settings on the wire, and a strict server ends the session", path=None if okf else render_path(body, pf))
+    else:
+        ctx.missing("R11.1", "test of Session.buffering in write_frame")
     # the buffering branch appends under the same lock
     ext = [c for c in calls_norm(body, "Vec::extend_from_slice") if isinstance(o.of_operand(c.args[0]), tuple) and len(o.of_operand(c.args[0])) > 2 and guard_info(body.lty(o.of_operand(c.args[0])[2]))]
     ctx.ob("R11.1", "write_frame:buffering-appends-under-lock", bool(ext), ext[0].site if ext else "", "buffered frames are appended through the Session.buffer guard" if ext else "no append to the locked buffer found")
@@ -191,6 +213,23 @@ def r4_settings_first(ctx):
             ok = isinstance(v, tuple) and v[0] == "const" and v[1] == 1 and cfgs.dominates(st[0].bb, wf[0].bb)
             ctx.ob("R11.4", "start_client:buffering-before-settings", ok, st[0].site, "buffering=true is stored before Settings is written (Settings waits for the first data write)" if ok else
                    "Settings is written before buffering is enabled (value %s)" % fmt(v))
+            # nobody else can write before Settings is queued: the session's own tasks (receive loop -> HeartResponse replies, the
+            # keep-alive monitor -> HeartRequest) are started only after the Settings write has completed
+            condss = ctx.conds(sb)
+            done = []
+            for c_ in condss.all():
+                if c_.kind == "variant" and isinstance(c_.term, tuple) and c_.term[0] == "call" and c_.term[2] == wf[0].bb:
+                    done += c_.edges_for("Continue") + c_.edges_for("Ok")
+            sp = [c_ for c_ in sb.calls() if (c_.norm or "").endswith(("tokio::spawn", "task::spawn", "Handle::spawn", "JoinSet::spawn"))]
+            if sp:
+                oksp = bool(done) and all(cfgs.edges_dominate(done, c_.bb) for c_ in sp)
+                late = [c_ for c_ in sp if not (done and cfgs.edges_dominate(done, c_.bb))]
+                ctx.ob("R11.4", "start_client:tasks-start-after-settings-is-queued", oksp, (late[0] if late else sp[0]).site,
+                       "all %d background tasks are spawned after the Settings write succeeded" % len(sp) if oksp else
+                       "a background task of the session is spawned before Settings has been queued: if the peer's first HeartRequest (or the monitor's immediate first tick) is served while start_client is still waiting "
+                       "for a lock, that task's frame is the first one on the wire and Settings follows it")
+            else:
+                ctx.missing("R11.4", "background task spawns in start_client")
             fr = os_.of_operand(wf[0].args[1])
             oks = any(isinstance(s, tuple) and s[0] == "agg" and s[2] == "Settings" for s in subterms(fr))
             ctx.ob("R11.4", "start_client:first-frame-is-Settings", oks, wf[0].site, "the first frame written by start_client is Command::Settings" if oks else "first frame is %s" % fmt(fr)[:100])
@@ -294,6 +333,8 @@ def r7_cancellation(ctx):
 
 
 def run(ctx):
+    from . import C01 as _C01
+    _C01.r9_complete_writes(ctx)     # a short write that is not completed leaves a frame fragment on the wire: every later frame of every stream is mis-parsed
     from . import C01, C05
     C01.r8_single_forwarder(ctx)   # one forwarder drains the outbound queue and passes each (id, chunk) on unchanged: per-task FIFO on the wire
     C05.r7_batching(ctx)           # buffering is switched off on the way to every first data write, so buffered SYNs cannot be stranded
